@@ -1114,11 +1114,15 @@ def writer_reject(ctx, sec, key, rname, value, why, typ):
                 visible = lookup(get_section(cfg, sec), key)
             except Exception:
                 visible = _MISSING
+        if (sec, key) == ("setup", "software version") and visible == mt.brand("", release()):
+            # the writer always brands the file, with or without a previous version
+            visible = _MISSING
         ctx.check("writer_rejects", visible is _MISSING,
                   lambda: {"section": sec, "key": show(key), "repr": rname,
                            "value": show(value), "reference": f"refuse: {why}",
                            "visible_after_reading": show(visible), "exc": repr(c.exc)},
-                  finding=classify("writer", sec, key, typ, value, None, "stored", visible),
+                  finding=classify("writer", sec, key, typ, writer_value(value), None, "stored",
+                                   visible),
                   message=f"store_metadata [{sec}]:{key!r} = {value!r} must be refused "
                           f"({why}) but reads back as {visible!r}")
         if c.exc is not None:
